@@ -303,3 +303,91 @@ Theorem C12_generated_min_helper_is_the_model : forall f z out E O,
   Generated.convertZToMinAltitudekey f z out E O = GenTac.enc_z (AltKeyCore.z2minkey f z out E O).
 Proof. exact GenEqAlt.gen_convertZToMinAltitudekey_eq. Qed.
 Print Assumptions C12_generated_min_helper_is_the_model.
+
+(* ---- the same results stated of the REGENERATED INT64 kernels (generated/Generated64.v: the Go functions translated on every run with
+   int64 wrap-around, shift semantics and panics explicit; Some (v, flag): flag = no operation wrapped; None = panic). Through
+   GenEq64Alt.v (generated int64 code = the int64 models z2key64m ... above, proved) the int64 claims no longer rest on a hand-written
+   model: theories/GenC12.v. Results are (min, max, err) triples, enc_zz (Ok (a,b)) = (a, b, false), enc_zz Err = (0, 0, true). ---- *)
+From SID Require I64 GenC12.
+Theorem C12_gen64_forward_meets_spec : forall f z out E O,
+  0 <= z <= 35 -> 0 <= out <= 35 -> 0 <= E <= 35 -> - 2 ^ 27 <= O <= 2 ^ 27 ->
+  exists r, Generated64.ConvertZToMinMaxAltitudekey f z out E O = Some (GenTac.enc_zz r, true) /\
+            r = z2key f z out E O /\ conv_spec (sid_scale z) f (key_scale out E O) r.
+Proof. exact GenC12.gen64_forward_meets_spec. Qed.
+Print Assumptions C12_gen64_forward_meets_spec.
+Theorem C12_gen64_backward_meets_spec : forall k kz out E O,
+  0 <= kz <= 35 -> 0 <= out <= 35 -> 0 <= E <= 35 -> - 2 ^ 50 <= O <= 2 ^ 50 ->
+  exists r, Generated64.ConvertAltitudekeyToMinMaxZ k kz out E O = Some (GenTac.enc_zz r, true) /\
+            r = key2z k kz out E O /\ conv_spec (key_scale kz E O) k (sid_scale out) r.
+Proof. exact GenC12.gen64_backward_meets_spec. Qed.
+Print Assumptions C12_gen64_backward_meets_spec.
+(* for ANY int64 arguments: a run without wrap returns the unbounded model's result, which meets the specification *)
+Theorem C12_gen64_forward_exact_meets_spec : forall f z out E O v,
+  Generated64.ConvertZToMinMaxAltitudekey f z out E O = Some (v, true) ->
+  v = GenTac.enc_zz (z2key f z out E O) /\ conv_spec (sid_scale z) f (key_scale out E O) (z2key f z out E O).
+Proof. exact GenC12.gen64_forward_exact_meets_spec. Qed.
+Print Assumptions C12_gen64_forward_exact_meets_spec.
+Theorem C12_gen64_backward_exact_meets_spec : forall k kz out E O v,
+  Generated64.ConvertAltitudekeyToMinMaxZ k kz out E O = Some (v, true) ->
+  v = GenTac.enc_zz (key2z k kz out E O) /\ conv_spec (key_scale kz E O) k (sid_scale out) (key2z k kz out E O).
+Proof. exact GenC12.gen64_backward_exact_meets_spec. Qed.
+Print Assumptions C12_gen64_backward_exact_meets_spec.
+Theorem C12_gen64_min_helper_exact_meets_spec : forall f z out E O v,
+  Generated64.convertZToMinAltitudekey f z out E O = Some (v, true) ->
+  v = GenTac.enc_z (z2minkey f z out E O) /\ minkey_spec (sid_scale z) f (key_scale out E O) (z2minkey f z out E O).
+Proof. exact GenC12.gen64_min_helper_exact_meets_spec. Qed.
+Print Assumptions C12_gen64_min_helper_exact_meets_spec.
+Theorem C12_gen64_shift_exact : forall i s v, Generated64.CalculateArithmeticShift i s = Some (v, true) -> v = ashift i s.
+Proof. exact GenC12.gen64_shift_exact. Qed.
+Print Assumptions C12_gen64_shift_exact.
+Theorem C12_gen64_validate_spec : forall i z neg, 0 <= z <= 62 ->
+  exists ok, Generated64.validateIndexExists i z neg = Some ((negb ok, ok), true) /\
+             (ok = true <-> (if neg then - 2 ^ z else 0) <= i < 2 ^ z).
+Proof. exact GenC12.gen64_validate_spec. Qed.
+Print Assumptions C12_gen64_validate_spec.
+Theorem C12_gen64_forward_bad_zoom : forall f z out E O, ~ (0 <= z <= 35 /\ 0 <= out <= 35) ->
+  Generated64.ConvertZToMinMaxAltitudekey f z out E O = Some (GenTac.enc_zz Err, true).
+Proof. exact GenC12.gen64_forward_bad_zoom. Qed.
+Print Assumptions C12_gen64_forward_bad_zoom.
+Theorem C12_gen64_backward_bad_zoom : forall k kz out E O, ~ (0 <= kz <= 35 /\ 0 <= out <= 35) ->
+  Generated64.ConvertAltitudekeyToMinMaxZ k kz out E O = Some (GenTac.enc_zz Err, true).
+Proof. exact GenC12.gen64_backward_bad_zoom. Qed.
+Print Assumptions C12_gen64_backward_bad_zoom.
+Theorem C12_gen64_forward_no_panic : forall f z out E O, - 2 ^ 62 <= E <= 2 ^ 62 -> Generated64.ConvertZToMinMaxAltitudekey f z out E O <> None.
+Proof. exact GenC12.gen64_forward_no_panic. Qed.
+Print Assumptions C12_gen64_forward_no_panic.
+Theorem C12_gen64_backward_no_panic : forall k kz out E O, - 2 ^ 62 <= E <= 2 ^ 62 -> Generated64.ConvertAltitudekeyToMinMaxZ k kz out E O <> None.
+Proof. exact GenC12.gen64_backward_no_panic. Qed.
+Print Assumptions C12_gen64_backward_no_panic.
+Theorem C12_gen64_exponent_panic_refuted :
+  Generated64.ConvertZToMinMaxAltitudekey 0 25 10 (- 2 ^ 63 + 10) 0 = None /\
+  Generated64.ConvertAltitudekeyToMinMaxZ 0 3 25 (- 2 ^ 63 + 3) 0 = None.
+Proof. exact GenC12.gen64_exponent_panic. Qed.
+Print Assumptions C12_gen64_exponent_panic_refuted.
+(* finding class int64_overflow on the generated kernels: wrong Ok answers (flag off) where the specification and the unbounded kernel say error *)
+Theorem C12_gen64_overflow_refuted_forward :
+  Generated64.ConvertZToMinMaxAltitudekey 0 25 35 0 (2 ^ 29) = Some ((0, 2 ^ 35 - 1, false), false) /\
+  Generated.ConvertZToMinMaxAltitudekey 0 25 35 0 (2 ^ 29) = (0, 0, true) /\
+  ~ conv_spec (sid_scale 25) 0 (key_scale 35 0 (2 ^ 29)) (Ok (0, 2 ^ 35 - 1)).
+Proof. exact GenC12.gen64_overflow_forward. Qed.
+Print Assumptions C12_gen64_overflow_refuted_forward.
+Theorem C12_gen64_overflow_refuted_backward :
+  Generated64.ConvertAltitudekeyToMinMaxZ 0 0 35 0 (2 ^ 54) = Some ((0, 1023, false), false) /\
+  Generated.ConvertAltitudekeyToMinMaxZ 0 0 35 0 (2 ^ 54) = (0, 0, true) /\
+  ~ conv_spec (key_scale 0 0 (2 ^ 54)) 0 (sid_scale 35) (Ok (0, 1023)).
+Proof. exact GenC12.gen64_overflow_backward. Qed.
+Print Assumptions C12_gen64_overflow_refuted_backward.
+(* the domain bounds are sufficient, not tight: first forward wrap at offset 7 * 2^25 (harmless: an error either way) *)
+Theorem C12_gen64_first_forward_wrap :
+  I64.fits (Generated64.ConvertZToMinMaxAltitudekey (2 ^ 35 - 1) 35 35 0 (7 * 2 ^ 25)) = false /\
+  I64.fits (Generated64.ConvertZToMinMaxAltitudekey (2 ^ 35 - 1) 35 35 0 (7 * 2 ^ 25 - 1)) = true /\
+  I64.go_value (Generated64.ConvertZToMinMaxAltitudekey (2 ^ 35 - 1) 35 35 0 (7 * 2 ^ 25)) = Some (0, 0, true).
+Proof. exact GenC12.gen64_first_forward_wrap. Qed.
+Print Assumptions C12_gen64_first_forward_wrap.
+Example C12_gen64_nonvacuous :
+  Generated64.ConvertZToMinMaxAltitudekey 0 25 25 25 (2 ^ 24) = Some ((2 ^ 24, 2 ^ 24, false), true) /\
+  Generated64.ConvertAltitudekeyToMinMaxZ (2 ^ 24) 25 25 25 (2 ^ 24) = Some ((0, 0, false), true) /\
+  Generated64.ConvertZToMinMaxAltitudekey 1 24 24 25 1 = Some ((1, 2, false), true) /\
+  Generated64.ConvertZToMinMaxAltitudekey 0 36 3 25 0 = Some ((0, 0, true), true) /\
+  Generated64.ConvertZToMinMaxAltitudekey 0 (- 2 ^ 63) 3 25 0 = Some ((0, 0, true), true).
+Proof. exact GenC12.gen64_nonvacuous. Qed.
